@@ -319,7 +319,7 @@ def failure_key(ops, source, k, way, setting, kind):
         v, _ = verdict(ops, source, k, way)
         if v is not None and v[0]:          # the same pipeline is within the bound on a plain iterator, default engine
             if setting[0] != 'var':
-                return '%s source handed over as input data (re-iterable collection, binding %s)' % (kind, setting[0])
+                return '%s source handed over as input data (re-iterable collection)' % kind
             return '%s engine with yaql.memoryQuota ops=%s' % (kind, '|'.join(o.fn for o in ops))
     return blame(ops, source, k, way, kind)
 
